@@ -505,6 +505,7 @@ class Run:
                 continue
             mine = []
             other = 0
+            other_prop = 0   # failed checks that belong to another property's clauses in a shared harness
             only_tool = True
             # KNOWNSIG[<obligation>]:... is asserted only on inputs where <obligation> is violated and states what the
             # *recorded* defect computes; if it fails, the code violates <obligation> in a way that is not the recorded one
@@ -525,11 +526,12 @@ class Run:
                 only_tool = False
                 if pid != self.prop:
                     other += 1
+                    other_prop += 1
                     continue
                 mine.append((d, loc))
             # obligations carried for *this* property: all checks of the harness except clauses named for others
             # KNOWNSIG:* assertions are diagnostics that characterise a recorded finding; they are not obligations
-            c["obligations"] = r.total - len(sig_obls)
+            c["obligations"] = r.total - len(sig_obls) - other_prop
             c["discharged"] = r.total - r.failed_n
             if r.status == "success" and r.covers_total and r.covers_sat < r.covers_total:
                 self.undecided.append(dict(contract=short, reason="vacuity: %d of %d cover properties unsatisfiable"
